@@ -183,6 +183,8 @@ class Evaluator:
                 for suf, u in self.law.attr_suffix.items():
                     if d.endswith(suf):
                         return u
+            if d is None and ("." + n.attr) in self.law.attr_suffix:
+                return self.law.attr_suffix["." + n.attr]
             if n.attr in ("T", "real", "flat"):
                 return self.e(n.value)
             if n.attr in ("size", "shape", "ndim"):
